@@ -113,21 +113,7 @@ def parseConv (j : Json) : Except String (Bool → Native → Option (Option Tok
     let key ← parseNative (← fld e "key")
     let tok ← optOf parseTok (← fld e "tok")
     return (dec, key, tok)
-  return fun dec x => (entries.find? fun e => e.1 == dec && e.2.1 == x).map (·.2.2)
-
-/-- the recorded part of `OpaqueStable`: an entry for the empty text is a failure; the text of every
-    recorded result is itself recorded, and converts to nothing or to a value with the same text -/
-def opaqueStableOn (T : Tables) (entries : List (Bool × Native × Option Tok)) : Bool :=
-  entries.all fun (dec, key, tok) =>
-    (if key == .str [] then tok.isNone else true) &&
-    match tok with
-    | none => true
-    | some t =>
-      let text := Flatland.Scalar.Spec.tokText t
-      match entries.find? (fun e => e.1 == dec && e.2.1 == .str (strip T text)) with
-      | none => false
-      | some (_, _, none) => true
-      | some (_, _, some t') => Flatland.Scalar.Spec.tokText t' == text
+  return Flatland.Scalar.Spec.tableConv entries
 
 def parseConvEntries (j : Json) : Except String (List (Bool × Native × Option Tok)) := do
   (← arr j).mapM fun e => do
@@ -169,7 +155,7 @@ def runScalar (j : Json) : Except String Json := do
     | .error _ => Json.null
   let entries ← parseConvEntries (fldD j "conv" (Json.arr #[]))
   return obj [("set", first), ("reset", reset),
-              ("opaque_stable", Json.bool (opaqueStableOn Flatland.Generated.C04.pyTables entries))]
+              ("opaque_stable", Json.bool (Flatland.Scalar.Spec.opaqueStableOn Flatland.Generated.C04.pyTables entries))]
 
 open Flatland.C04 in
 partial def parseSchema (j : Json) : Except String Schema := do
@@ -245,7 +231,7 @@ def runTree (j : Json) : Except String Json := do
                             ("tree", Json.null)]
   | .ok out =>
     return obj [("exc", Json.null), ("flag", Json.bool out.flag),
-      ("sigs", ofList (fun (s : Flatland.C04.Sig) => Json.arr #[ofNats s.1, Json.bool s.2.1, elemJson s.2.2]) out.sigs),
+      ("sigs", ofList (fun (s : Flatland.C04.Sig) => Json.arr #[(match s.1 with | some p => ofNats p | none => Json.null), Json.bool s.2.1, elemJson s.2.2]) out.sigs),
       ("tree", elemJson out.elem)]
 
 def run (j : Json) : Except String Json := do
